@@ -127,6 +127,17 @@ def run_case(case, ctx):
             for c in (131072.0, 1048576.0):
                 F5, G5 = aff(F, 1.0 / 3.0, c), aff(G, 1.0 / 3.0, c)
                 check_val(ctx, "value-shift", h(ctx, F5, G5, sigma), F5, G5, sigma, "x/3 + %r" % c)
+            # mixed representations: integer array / nested list of ints against a fractional float array
+            Gh = aff(G, 0.5, 0.25)
+            import persim as _p
+
+            for what, a1, a2 in (("int array vs fractional float array", np.array(F, dtype=int).reshape(-1, 2), farr(Gh)),
+                                 ("fractional float array vs int array", farr(Gh), np.array(F, dtype=int).reshape(-1, 2)),
+                                 ("nested int list vs float array", [[int(x) for x in p] for p in F], farr(Gh))):
+                if len(F) == 0 and "list" in what:
+                    continue
+                first_is_F = "vs fractional" in what or "list" in what
+                check_val(ctx, "value-mixed-dtype", ctx.call(_p.heat, a1, a2, sigma=sigma), F if first_is_F else Gh, Gh if first_is_F else F, sigma, what)
             # scaling points by a and sigma by a^2 scales the distance by 1/a
             for a in (0.1, 1e3):
                 F4, G4 = aff(F, a, 0.0), aff(G, a, 0.0)
